@@ -66,11 +66,41 @@ theorem mink_translate (A B : V → Prop) (τ m : V) :
 
 /-! ### `_penetration_info` and the loop exit -/
 
-theorem contactPosition_ok {P : Portal ℝ} {dir : V} {c : V × ℕ} (h : contactPosition P dir = .ok c) :
+/-- the degenerate-portal test of the repaired `_contact_position`: the main weight sum is below
+`EPSILON` (fallback entered) and the fallback weight sum is below `EPSILON` in absolute value -/
+def ContactDegenerate (P : Portal ℝ) (dir : V) : Prop :=
+  sum4 (baryMain P.p0.v P.p1.v P.p2.v P.p3.v) < EPS ∧
+    absS (sum4 (baryFallback P.p1.v P.p2.v P.p3.v dir)) < EPS
+
+noncomputable instance (P : Portal ℝ) (dir : V) : Decidable (ContactDegenerate P dir) :=
+  Classical.propDecidable _
+
+/-- what the degenerate branch returns: midpoint of the pre-images of the closest portal row -/
+noncomputable def degeneratePos (P : Portal ℝ) : V :=
+  V3.smul 0.5 ((closestRow P.p1 P.p2 P.p3).1.a + (closestRow P.p1 P.p2 P.p3).1.b)
+
+/-- the repair 045c18e changes `_contact_position` only on degenerate portals -/
+theorem contactPosition_split (P : Portal ℝ) (dir : V) :
+    contactPosition P dir =
+      if ContactDegenerate P dir then .ok (degeneratePos P, 2)
+      else contactPosition_asIs_before_fix P dir := by
+  unfold contactPosition contactPosition_asIs_before_fix contactWeights contactCombine ContactDegenerate
+    degeneratePos
+  dsimp only
+  by_cases h1 : sum4 (baryMain P.p0.v P.p1.v P.p2.v P.p3.v) < EPS
+  · by_cases h2 : absS (sum4 (baryFallback P.p1.v P.p2.v P.p3.v dir)) < EPS
+    · simp only [h1, h2, if_true, and_self]
+    · simp only [h1, h2, if_true, if_false, and_false]
+      split_ifs <;> rfl
+  · simp only [h1, if_false, false_and]
+    split_ifs <;> rfl
+
+theorem contactPosition_before_fix_ok {P : Portal ℝ} {dir : V} {c : V × ℕ}
+    (h : contactPosition_asIs_before_fix P dir = .ok c) :
     ∃ w : (ℝ × ℝ × ℝ × ℝ) × ℕ, contactWeights P.p0.v P.p1.v P.p2.v P.p3.v dir = .ok w ∧
       c = (V3.smul 0.5 (comb4 w.1 P.p0.a P.p1.a P.p2.a P.p3.a + comb4 w.1 P.p0.b P.p1.b P.p2.b P.p3.b),
            w.2) := by
-  unfold contactPosition at h
+  unfold contactPosition_asIs_before_fix at h
   cases hw : contactWeights P.p0.v P.p1.v P.p2.v P.p3.v dir with
   | error e => rw [hw] at h; cases h
   | ok w =>
@@ -78,6 +108,21 @@ theorem contactPosition_ok {P : Portal ℝ} {dir : V} {c : V × ℕ} (h : contac
     refine ⟨w, rfl, ?_⟩
     injection h with h
     exact h.symm
+
+/-- a result of `_contact_position`: either the degenerate branch (2) or weights were used -/
+theorem contactPosition_ok {P : Portal ℝ} {dir : V} {c : V × ℕ} (h : contactPosition P dir = .ok c) :
+    (ContactDegenerate P dir ∧ c = (degeneratePos P, 2)) ∨
+    (¬ ContactDegenerate P dir ∧
+      ∃ w : (ℝ × ℝ × ℝ × ℝ) × ℕ, contactWeights P.p0.v P.p1.v P.p2.v P.p3.v dir = .ok w ∧
+      c = (V3.smul 0.5 (comb4 w.1 P.p0.a P.p1.a P.p2.a P.p3.a + comb4 w.1 P.p0.b P.p1.b P.p2.b P.p3.b),
+           w.2)) := by
+  rw [contactPosition_split] at h
+  by_cases hd : ContactDegenerate P dir
+  · rw [if_pos hd] at h
+    injection h with h
+    exact Or.inl ⟨hd, h.symm⟩
+  · rw [if_neg hd] at h
+    exact Or.inr ⟨hd, contactPosition_before_fix_ok h⟩
 
 theorem penetrationInfo_ok {P : Portal ℝ} {r : ℝ × V × V × ℕ × ℕ × Bool}
     (h : penetrationInfo P = .ok r) :
@@ -223,8 +268,8 @@ theorem findPenInfoLoop_fuel (sup : Sup ℝ) (tol : ℝ) (maxIter : ℕ) (p0 : S
             intro hr; injection hr with hr
             subst hr; subst hcontra
             revert hcp
-            unfold contactPosition contactWeights
-            simp only [bind, Except.bind, isZero_iff]
+            unfold contactPosition contactCombine
+            simp only [isZero_iff]
             split_ifs <;> intro hcp <;> cases hcp
     · have hlt : ¬ it > maxIter := by
         intro hgt; apply hc; simp [hgt]
